@@ -257,6 +257,20 @@ def run_impl(case):
                 b['pool_calls'] = pool.ncalls
                 b['ev'] = [x for x, _ in spy]
                 b['results'] = [t for _, t in spy]
+                if not spy and rows:
+                    # the scorer was not reached through `get_importances_estimate_pairwise` (an internal name: the implementation
+                    # may score differently): the observation point is gone – a tie matter.  The evaluated pairs are then read off
+                    # the returned rows (every evaluated pair must be listed in both orientations): half the rows of each unordered
+                    # pair, in the orientation that was requested.
+                    b['scorer_unobservable'] = True
+                    requested = set(obs['combos'])
+                    cnt = Counter((min(r[0], r[1], key=str), max(r[0], r[1], key=str)) if r[0] != r[1] else (r[0], r[1]) for r in rows)
+                    ev = []
+                    for (x, y), v in cnt.items():
+                        pair = (x, y) if (x, y) in requested or (y, x) not in requested else (y, x)
+                        ev += [pair] * ((v + 1) // 2)
+                    b['ev'] = ev
+                    b['results'] = None
             obs['batches'].append(b)
     except Exception as e:                                      # the property implies the call succeeds
         obs['error'] = f'{type(e).__name__}: {e}'
@@ -297,7 +311,7 @@ def requests(case, obs, oracle_only):
             ls.append(line(P, Atom('reset'))); lay.append('reset')
             for k, b in enumerate(obs['batches']):
                 ls.append(line(P, Atom('batch'), names, label, to, m3, b['cap'])); lay.append(f'm-batch{k}')
-                if not const and not big:
+                if not const and not big and b.get('results') is not None:
                     tr = [[idf(t[0]), idf(t[1]), bits(t[2])] for t in b['results']]
                     ls.append(line(P, Atom('rows'), False, tr)); lay.append(f'm-rows{k}')
     if in_domain(case) and not big:
@@ -370,6 +384,9 @@ def judge(case, obs, rep, lay, oracle_only):
                 if Counter((idf(t[0]), idf(t[1]), bits(t[2])) for t in b['rows']) != Counter((i, j, 0) for (i, j) in msel.elements()):
                     fails.append(('corr', 'rows', f'{sc}: batch {k}: Constant rows differ from the model selection with score 0'))
                     break
+    if any(b.get('scorer_unobservable') for b in obs['batches']):
+        fails.append(('corr', 'scorer-unobservable', f'{sc}: rows came back but get_importances_estimate_pairwise was never called: the scored pairs were '
+                      'read off the rows instead'))
     # ---- oracle (Lean predicates on the implementation's outputs)
     if 'o-spec' in R and R['o-spec'] != Atom('true'):
         fails.append(('oracle', 'requested-pairs', f'{sc}: get_combinations_from_columns returned {obs["combos"][:12]}{"…" if len(cs) > 12 else ""} '
@@ -377,7 +394,7 @@ def judge(case, obs, rep, lay, oracle_only):
     for k, b in enumerate(obs['batches']):
         if f'o-batch{k}' in R and R[f'o-batch{k}'] != Atom('true'):
             fails.append(('oracle', explain_batch_key(case, obs, b), f'{sc}: batch {k} (cap {b["cap"]}, {len(cs)} combinations, '
-                          f'{len(b["ev"])} pairs handed to the scorer, {len(b["rows"])} rows): ' + explain_batch(case, obs, b)))
+                          f'{len(b["ev"])} pairs {"read off the rows as evaluated" if b.get("scorer_unobservable") else "handed to the scorer"}, {len(b["rows"])} rows): ' + explain_batch(case, obs, b)))
             break
     if case['kind'] == 'clamp':
         for k, b in enumerate(obs['batches']):
